@@ -314,3 +314,18 @@ Proof.
   - eexists. split; [vm_compute; reflexivity|]. split; [reflexivity|]. split; [vm_compute; reflexivity|].
     eexists _, _. vm_compute. reflexivity.
 Qed.
+
+(* a disconnect destroys everything the connection owned, within the step *)
+Lemma disconnect_step s i c s' out :
+  reachable s → legal s i → i_ev i = ConnectionShutdown c →
+  step s (ConnectionShutdown c) (i_fresh i) (i_bserial i) = Done (s', out) →
+  conns s' !! c = None ∧
+  (∀ u o, objs s' !! u = Some o → o_owner o ≠ c) ∧
+  (∀ ou su sv o, svcs s' !! (ou, su) = Some sv → objs s' !! ou = Some o → o_owner o ≠ c).
+Proof.
+  intros Hr Hl He Hs.
+  assert (conns s' !! c = None) as Hc.
+  { eapply (shutdown_event_closes s c _ _ s' out (ConnectionShutdown c)); [by left|exact Hs]. }
+  split; [done|]. apply reach_disconnected_owns_nothing; [|done].
+  eapply reach_step; [exact Hr|exact Hl|]. rewrite He. exact Hs.
+Qed.
